@@ -129,6 +129,22 @@ CATALOGUE = [
     "struct Foo:\n  0 [+8]  UInt  offset\n  offset [+1]  UInt  x\n",
     "struct Data:\n  0 [+1]  Data  d1\n  let x = d1.x\n",
     "struct Foo:\n  0 [+1]  UInt  f0\n" + "".join("  $next [+1]  UInt  f%d\n" % i for i in range(1, 200)),
+    # $next in every position of a field's size and start expression, before a field that itself starts at $next
+    "struct Foo:\n  0 [+1]  UInt  a\n  1 [+$next]  UInt:8[]  b\n  $next [+1]  UInt  c\n",
+    "struct Foo:\n  0 [+1]  UInt  a\n  1 [+$next-3]  UInt:8[]  b\n  $next [+1]  UInt  c\n",
+    "struct Foo:\n  0 [+1]  UInt  a\n  1 [+1+$next]  UInt:8[]  b\n  $next [+1]  UInt  c\n",
+    "struct Foo:\n  0 [+1]  UInt  a\n  1 [+$max(1, $next)]  UInt:8[]  b\n  $next [+1]  UInt  c\n",
+    "struct Foo:\n  0 [+1]  UInt  a\n  1 [+$next*1]  UInt:8[]  b\n  $next [+1]  UInt  c\n",
+    "struct Foo:\n  0 [+1]  UInt  a\n  1 [+a+$next]  UInt:8[]  b\n  $next [+1]  UInt  c\n",
+    "struct Foo:\n  0 [+1]  UInt  a\n  1 [+$next+$next]  UInt:8[]  b\n  $next [+1]  UInt  c\n",
+    "struct Foo:\n  0 [+1]  UInt  a\n  1 [+($next)]  UInt:8[]  b\n  $next [+1]  UInt  c\n",
+    "struct Foo:\n  0 [+1]  UInt  a\n  $next+1 [+1]  UInt  b\n  $next [+1]  UInt  c\n",
+    "struct Foo:\n  0 [+1]  UInt  a\n  $max($next, 4) [+1]  UInt  b\n  $next [+1]  UInt  c\n",
+    "struct Foo:\n  0 [+1]  UInt  a\n  $next+$next [+1]  UInt  b\n  $next [+1]  UInt  c\n",
+    "struct Foo:\n  0 [+1]  UInt  a\n  2*$next-1 [+1]  UInt  b\n  $next [+1]  UInt  c\n",
+    "struct Foo:\n  $next [+1]  UInt  a\n  $next [+1]  UInt  b\n",
+    "struct Foo:\n  0 [+1]  UInt  a\n  let v = $next\n  $next [+1]  UInt  c\n",
+    "struct Foo:\n  0 [+1]  UInt  a\n  if $next == 1:\n    $next [+1]  UInt  c\n",
     # definitions in terms of themselves through a nested instance; chains that used to take exponential time
     "struct Node:\n  0 [+1]  UInt  n\n  1 [+2]  Node  child\n  let a = child.a\n  let z = a.n\n",
     "struct Node:\n  0 [+1]  UInt  n\n  1 [+2]  Node  child\n  let a = child.a\n",
@@ -454,9 +470,15 @@ def check_case(case):
         raw += [b"struct Foo:\n  # caf\xe9\n  0 [+1]  UInt  x\n", b"struct Foo:\n  0 [+1]  UInt  x\xe9\n", b"struct Foo:\n  0 [+1]  UInt  x\n  -- \xe2\x82",
                 b"\xef\xbb\xbfstruct Foo:\n  0 [+1]  UInt  x\n", b'import "bad.emb" as b\nstruct Foo:\n  0 [+1]  UInt  x\n']
         every = samples + raw
+        # imports that name something on the import path which is not an openable regular file
+        every += ['import "%s" as x\nstruct Foo:\n  0 [+1]  UInt  y\n' % nm for nm in (
+            "sub", ".", "..", "/", "sub/", "other.emb/inner.emb", "sub/nested", "n" * 300 + ".emb", "", "m.emb/.")]
         for text in every[case.get("part", 0)::case.get("parts", 1)]:
             d = tempfile.mkdtemp(prefix="embverif-")
             try:
+                os.makedirs(os.path.join(d, "sub", "nested"))
+                with open(os.path.join(d, "other.emb"), "w") as f:
+                    f.write("struct Other:\n  0 [+1]  UInt  z\n")
                 if isinstance(text, bytes):
                     with open(os.path.join(d, "m.emb"), "wb") as f:
                         f.write(text)
